@@ -55,56 +55,10 @@ fn clone_shares_state_new_does_not() {
     core::mem::forget(cc);
 }
 
-fn empty_mock(partial: bool) -> Unimock {
-    Unimock {
-        shared_state: alloc::Arc::new(state::SharedState::new(alloc::BTreeMap::new(), if partial { FallbackMode::Unmock } else { FallbackMode::Error })),
-        value_chain: Default::default(),
-        default_impl_delegator_cell: Default::default(),
-        original_instance: true,
-        torn_down: false,
-        verify_in_drop: true,
-        panicked: private::MutexIsh::new(false),
-    }
-}
-
-/// eval::eval continuation mapping for unmentioned methods (C07): the decision of eval_dyn is handed to the generated code as
-/// Continue(Unmock | CallDefaultImpl, inputs) with the caller's inputs UNCHANGED, or as Err(NoMockImplementation); a value
-/// (Eval::Return) is never fabricated.  (With `Unimock::new(())` instead of the struct literal CBMC needs > 900 s.)
-//@K props=C07 tier=thorough label=full feat=nostd fn=eval::eval[unmentioned] timeout=3000
-#[kani::proof]
-#[kani::unwind(4)]
-fn eval_continuation_mapping() {
-    let partial: bool = kani::any();
-    let u = empty_mock(partial);
-    let x: u8 = kani::any();
-    let y: i8 = kani::any();
-    match crate::eval::eval::<G8>(&u, (x, y)) {
-        Ok(Eval::Continue(Continuation::Unmock, inputs)) => {
-            assert!(partial);
-            assert!(inputs == (x, y));
-        }
-        Err(error::MockError::NoMockImplementation { .. }) => assert!(!partial),
-        _ => assert!(false),
-    }
-    kani::cover!(partial);
-    kani::cover!(!partial);
-    core::mem::forget(u);
-}
-
-//@K props=C07 tier=thorough label=full feat=nostd fn=eval::eval[unmentioned,default-impl] timeout=3000
-#[kani::proof]
-#[kani::unwind(4)]
-fn eval_continuation_mapping_default_impl() {
-    let u = empty_mock(kani::any());
-    let x: u8 = kani::any();
-    let y: i8 = kani::any();
-    match crate::eval::eval::<GDefault>(&u, (x, y)) {
-        Ok(Eval::Continue(Continuation::CallDefaultImpl, inputs)) => assert!(inputs == (x, y)),
-        _ => assert!(false),
-    }
-    kani::cover!(true);
-    core::mem::forget(u);
-}
+// NOT COVERED (measured 2026-09-27): eval::eval's continuation mapping (Unmock / CallDefaultImpl / Err handed to the generated
+// code with the inputs unchanged).  Harnesses calling the generic eval::eval::<F> on an empty mock ran > 900 s with
+// Unimock::new(()) and ran out of memory (62 GB) with a struct-literal mock; removed.  The decision itself is under contract
+// in eval_h.rs (eval_dyn_unmentioned, eval_dyn_mentioned_*).
 
 /// Unimock::from_assembler (C14): an assembly error makes construction panic immediately (not at call time).
 //@K props=C14 tier=quick label=full feat=nostd fn=Unimock::from_assembler[Err]
